@@ -8,6 +8,24 @@ ROOT = os.path.dirname(os.path.dirname(os.path.abspath(__file__)))
 
 # id -> (category, technique, level text, level note, design ref)
 CHECKS = {
+    'C19': ('exploration',
+            'Hypothesis-generated ManageSieve programs (names decoded relative '
+            'to the model state) against a per-user dictionary model',
+            'Programs of <= 30 steps over the whole ManageSieve command set '
+            'for alice and bob: script commands before authentication (must '
+            'be refused, must not return data), PUTSCRIPT with names (UTF-8, '
+            'quotes, backslashes, 200 bytes, empty) and bodies (arbitrary '
+            'bytes up to the 4096-byte string limit, quoted or {n+} literal), '
+            'GETSCRIPT, LISTSCRIPTS, SETACTIVE (name, "", unknown), '
+            'DELETESCRIPT, RENAMESCRIPT (onto itself / existing), HAVESPACE, '
+            'CHECKSCRIPT, UNAUTHENTICATE and re-login as the other user. After '
+            'every mutating command LISTSCRIPTS (names, exactly one ACTIVE '
+            'mark) and GETSCRIPT of every script are compared with the model; '
+            'the other user\'s store is compared when the program logs in as '
+            'that user. Sampled.',
+            'dict backend (the maildir filter set keeps a single script by '
+            'design); script bodies need not be valid Sieve.',
+            'DESIGN.md section 3, C19'),
     'C13': ('exploration',
             'Hypothesis-generated mailboxes and search programs; independent '
             'RFC 3501 search evaluator as oracle plus metamorphic relations',
